@@ -121,7 +121,12 @@ impl ConnCase {
                 Some(l) => json::u(l),
                 None => J::Null,
             }),
-            ("stream", json::hex(&self.stream)),
+            // a stream that ends in a long run of the fill pattern (mega bodies) is stored as
+            // head + pattern length instead of megabytes of hex
+            ("stream", match fill_split(&self.stream) {
+                Some((head, n)) => J::Arr(vec![json::s("fill"), json::hex(&self.stream[..head]), json::u(n), json::u(7)]),
+                None => json::hex(&self.stream),
+            }),
             ("stream_text", json::s(&json::show(&self.stream))),
             ("scheds", J::Arr(self.scheds.iter().map(|s| sops_to_json(s)).collect())),
             ("eof", J::Bool(self.eof)),
@@ -145,7 +150,16 @@ impl ConnCase {
         }
         Ok(ConnCase {
             limit: j.get("limit").and_then(|x| x.usize()),
-            stream: j.req_hex("stream")?,
+            stream: match j.get("stream").and_then(|x| x.arr()) {
+                Some(a) => {
+                    let mut v = a.get(1).and_then(|x| x.bytes()).ok_or("fill head")?;
+                    let n = a.get(2).and_then(|x| x.usize()).ok_or("fill len")?;
+                    let k = a.get(3).and_then(|x| x.usize()).unwrap_or(7) as u8;
+                    v.extend(crate::props_w::fill_body(n, k));
+                    v
+                }
+                None => j.req_hex("stream")?,
+            },
             scheds,
             eof: j.get("eof").and_then(|x| x.bool()).unwrap_or(true),
             oneshot_max: j.get("oneshot_max").and_then(|x| x.usize()),
@@ -899,4 +913,19 @@ pub fn run_online(
     }
     info.sig = sig;
     Ok(info)
+}
+
+/// (length of the head, length of the pattern) if the stream is `head ++ fill_body(n, 7)` with a
+/// head that ends in a blank line and n >= 100_000
+fn fill_split(stream: &[u8]) -> Option<(usize, usize)> {
+    if stream.len() < 100_000 {
+        return None;
+    }
+    let head = stream[..stream.len().min(2048)].windows(4).position(|w| w == b"\r\n\r\n")? + 4;
+    let n = stream.len() - head;
+    if n >= 100_000 && stream[head..] == crate::props_w::fill_body(n, 7)[..] {
+        Some((head, n))
+    } else {
+        None
+    }
 }
